@@ -86,6 +86,22 @@ Theorem error_propagates :
     step_with_errors A op e polls k stale tr = SErr.
 Proof. exact step_error_exact. Qed.
 
+(* KNOWN FINDING F-TP-ERRLATE (threadpool package, outside the library): the job wrapper signals
+   wg.Done() before the worker stores the job's error, so Wait may return nil although a job failed.
+   error_propagates above is the statement under the assumption that the error is stored in time;
+   with late failures it is refuted, and it holds again as soon as one failing job is timely. *)
+Theorem threadpool_late_error_refuted :
+  exists (tr : list (jevent Z * bool)) (a : Z),
+    (exists i l, In ((i, JErr), l) tr) /\
+    step_with_errors_late Z Z.add 0%Z true 2 [mkThr false 0%Z; mkThr false 0%Z] tr = SOk a.
+Proof. exact late_error_lost. Qed.
+
+Theorem timely_error_propagates :
+  forall (A : Type) (op : A -> A -> A) (e : A) (polls : bool) (tr : list (jevent A * bool)) p err p' b,
+    (exists i, In ((i, JErr), false) tr) ->
+    par_run_late A op e polls tr p err = Some (p', b) -> b = true.
+Proof. exact ProofsSites.timely_error_propagates. Qed.
+
 (* the code before fix 3a744c6 (Wait's error dropped) did not have this property *)
 Theorem prefix_code_drops_error_refuted :
   exists (k : nat) (tr : list (jevent Z)) (a : Z),
